@@ -10,6 +10,13 @@ CONSTANTS
   QCap = 8
   Dev_ProxySectionsNotAtomic = TRUE
   Dev_SendAfterSnapshot = TRUE
+  Objects = {"o1"}
+  ObjOf <- CastObj
+  Devs = {}
+  Probe <- NoProbe
+  Failing = {}
+  Inject <- NoInject
+  Rogue = {}
   Hunt = "NoDuplicate"
 INVARIANT HuntOpen
 VIEW GView
